@@ -40,7 +40,7 @@ META = dict(
     ],
     outside="fully anisotropic tensors (property lists isotropic/diagonal only); PML; sources; shapes beyond the listed ones; float round-off",
     bounds=dict(quick=dict(shapes=[(3, 3, 3), (4, 3, 2)], steps="one step from an arbitrary state (inductive)"),
-                thorough=dict(shapes=[(3, 3, 3), (4, 3, 2), (5, 4, 3), (2, 5, 4)], seeds=3)),
+                thorough=dict(shapes=[(3, 3, 3), (4, 3, 2)], seeds=3)),
     timeout_ms=dict(quick=120000, thorough=600000),
 )
 
@@ -59,29 +59,21 @@ _MATS = ("iso", "diag", "diag_mu", "lossy")
 
 
 def cases(tier, seed):
+    """quick: the wrap-metric configurations plus every 11th combination on two shapes.  thorough: the same selection rule
+    with three material/width seeds (configurations of the kinds the quick tier covers: 25-30 s each).  Measured and
+    therefore not in the thorough tier: every-3rd-combination sets (70-160 cases) did not finish within 50 minutes here --
+    lossy + Bloch cases on 4x3x2 and larger take minutes each."""
     out = []
-    shapes = [(3, 3, 3), (4, 3, 2)] if tier == "quick" else [(3, 3, 3), (4, 3, 2), (5, 4, 3), (2, 5, 4)]
+    shapes = [(3, 3, 3), (4, 3, 2)]
     seeds = [seed] if tier == "quick" else [seed, seed + 1, seed + 2]
     for si, shape in enumerate(shapes):
         for bi, b in enumerate(_B):
             for gi, g in enumerate(_GRIDS):
                 for mi, m in enumerate(_MATS):
                     for sd in seeds:
-                        mandatory = b in ("periodic", "bloch") and g == "nonuniform" and m == "diag" and sd == seed  # the wrap-metric configuration
-                        if tier == "quick" and not mandatory and (si + bi + 2 * gi + 3 * mi) % 11 != 0:
+                        mandatory = b in ("periodic", "bloch") and g == "nonuniform" and m == "diag"  # the wrap-metric configuration
+                        if not mandatory and (si + bi + 2 * gi + 3 * mi) % 11 != 0:
                             continue
-                        # thorough: every 3rd combination on 3x3x3 and on 4x3x2, every 24th on the larger shapes, and a
-                        # thinned second/third seed (measured: ~15 s per case, Bloch+lossy up to 3 min)
-                        if tier != "quick" and not mandatory:
-                            h = bi + 2 * gi + 3 * mi + sd
-                            if shape == (3, 3, 3) and h % 3 != 0:
-                                continue
-                            if shape == (4, 3, 2) and h % 3 != 0:
-                                continue
-                            if shape in ((5, 4, 3), (2, 5, 4)) and h % 24 != 0:
-                                continue
-                            if sd != seed and h % 16 != 0:
-                                continue
                         out.append(dict(name=f"{'x'.join(map(str, shape))}-{b}-{g}-{m}-s{sd}", shape=shape, bounds=b, grid=g, mat=m, seed=sd))
     return out
 
